@@ -14,7 +14,7 @@ def run(ctx):
     if quick:
         cases = cases[ctx.seed % 4::4]
     scns += run_harness_scenarios(ctx, "cost", cases)
-    out = ctx.harness(["cost", "--random", "3000" if quick else "60000"])
+    out = ctx.harness(["cost", "--random", "3000" if quick else "400000"])
     scns += common.split_scenarios(out)
     for s, evs in scns:
         if evs and evs[0].get("ev") == "Charge" and (evs[0]["floored"] or len(s["F"]) >= 2):
